@@ -250,3 +250,8 @@ CHECKS["C06"].mc_models = ("MC_Codec", "MC_Bits", "MC_Layout")
 from harness.checks_threads import ThreadsCheck  # noqa: E402
 
 CHECKS["C15"] = ThreadsCheck()
+
+
+from harness.checks_parser import ParserCheck  # noqa: E402
+
+CHECKS["C13"] = ParserCheck()
